@@ -462,7 +462,8 @@ DIFams == <<
   DI("DICompositeType", FALSE, << Slot("tag", <<"tag: DW_TAG_structure_type", "tag: DW_TAG_array_type", "tag: DW_TAG_enumeration_type", "tag: DW_TAG_union_type", "tag: DW_TAG_class_type", "tag: DW_TAG_variant_part">>),
        Slot("name", <<"", "name: \"T\"">>), Slot("scope", <<"", "scope: !12">>), Slot("file", <<"", "file: !1">>), Slot("line", <<"", "line: 2">>),
        Slot("baseType", <<"", "baseType: !2">>), Slot("size", <<"", "size: 64">>), Slot("align", <<"", "align: 32">>), Slot("offset", <<"", "offset: 8">>),
-       Slot("flags", <<"", "flags: DIFlagFwdDecl", "flags: DIFlagPublic | DIFlagAppleBlock", "flags: DIFlagTypePassByValue">>), Slot("elements", <<"", "elements: !8">>),
+       Slot("flags", <<"", "flags: DIFlagFwdDecl", "flags: DIFlagPublic | DIFlagAppleBlock", "flags: DIFlagTypePassByValue",
+                      "flags: 2097152", "flags: DIFlagPublic | 2097152 | DIFlagVector">>), Slot("elements", <<"", "elements: !8">>),
        Slot("runtimeLang", <<"", "runtimeLang: DW_LANG_ObjC">>), Slot("vtableHolder", <<"", "vtableHolder: !13">>), Slot("templateParams", <<"", "templateParams: !8">>),
        Slot("identifier", <<"", "identifier: \"_ZTS1T\"">>), Slot("discriminator", <<"", "discriminator: !15">>), Slot("dataLocation", <<"", "dataLocation: !7">>),
        Slot("associated", <<"", "associated: !7">>), Slot("allocated", <<"", "allocated: !7">>), Slot("rank", <<"", "rank: 2", "rank: !7">>), Slot("annotations", <<"", "annotations: !8">>) >>),
@@ -501,7 +502,8 @@ DIFams == <<
   DI("DISubprogram", TRUE, << Slot("name", <<"", "name: \"sp\"">>), Slot("linkageName", <<"", "linkageName: \"_sp\"">>), Slot("scope", <<"", "scope: !1">>), Slot("file", <<"", "file: !1">>), Slot("line", <<"", "line: 2">>),
        Slot("type", <<"", "type: !5">>), Slot("scopeLine", <<"", "scopeLine: 3">>), Slot("containingType", <<"", "containingType: !13">>), Slot("virtualIndex", <<"", "virtualIndex: 1">>),
        Slot("thisAdjustment", <<"", "thisAdjustment: -8">>), Slot("flags", <<"", "flags: DIFlagPrototyped", "flags: DIFlagPrototyped | DIFlagAllCallsDescribed", "flags: DIFlagPrivate", "flags: DIFlagProtected">>),
-       Slot("spFlags", <<"spFlags: DISPFlagDefinition", "spFlags: DISPFlagDefinition | DISPFlagOptimized", "spFlags: DISPFlagLocalToUnit | DISPFlagDefinition", "spFlags: DISPFlagDefinition | DISPFlagPure | DISPFlagElemental | DISPFlagRecursive | DISPFlagMainSubprogram">>),
+       Slot("spFlags", <<"spFlags: DISPFlagDefinition", "spFlags: DISPFlagDefinition | DISPFlagOptimized", "spFlags: DISPFlagLocalToUnit | DISPFlagDefinition", "spFlags: DISPFlagDefinition | DISPFlagPure | DISPFlagElemental | DISPFlagRecursive | DISPFlagMainSubprogram",
+                         "spFlags: DISPFlagDefinition | 4096", "spFlags: 4104">>),
        Slot("unit", <<"unit: !3">>), Slot("templateParams", <<"", "templateParams: !8">>), Slot("declaration", <<"", "declaration: !21">>), Slot("retainedNodes", <<"", "retainedNodes: !8">>),
        Slot("thrownTypes", <<"", "thrownTypes: !8">>), Slot("annotations", <<"", "annotations: !8">>) >>),
   DI("DISubrange", FALSE, << Slot("count", <<"count: 4", "count: -1", "count: !14", "">>), Slot("lowerBound", <<"", "lowerBound: 1", "lowerBound: !14", "lowerBound: !7">>),
